@@ -25,12 +25,20 @@ duckdb_to_sf_type = {
     "DATE": "date",
     "DECIMAL": "fixed",
     "DOUBLE": "real",
+    "FLOAT": "real",
+    "HUGEINT": "fixed",
     "INTEGER": "fixed",
     "JSON": "variant",
+    "SMALLINT": "fixed",
     "TIME": "time",
     "TIMESTAMP WITH TIME ZONE": "timestamp_tz",
     "TIMESTAMP_NS": "timestamp_ntz",
     "TIMESTAMP": "timestamp_ntz",
+    "TINYINT": "fixed",
+    "UBIGINT": "fixed",
+    "UINTEGER": "fixed",
+    "USMALLINT": "fixed",
+    "UTINYINT": "fixed",
     "VARCHAR": "text",
 }
 
